@@ -12,7 +12,7 @@ from .isa_templates import regs_set
 from .pipe_common import PipeShape
 
 ID = 'C10'
-BUDGET_S = {'quick': 170, 'thorough': 1800}
+BUDGET_S = {'quick': 170, 'thorough': 3600}
 SHAPE_WALL_S = {'quick': 100, 'thorough': 600}
 FAMILY = ('PIPE, relational: the same program once with a macro invocation and once with the invocation replaced by its '
           'hand-written expansion, both through the real assembler in one symbolic run; macro definitions with 1..3 steps, '
@@ -279,7 +279,7 @@ def random_shapes(tier, seed):
     import random
     rnd = random.Random(1000 + seed)
     S = []
-    for i in range(40 if tier == 'quick' else 900):
+    for i in range(40 if tier == 'quick' else 3000):
         mdef, inv, exp, consts = random_macro(rnd)
         cfg = base_isa(consts)
         cfg['macros'] = {'mm': [mdef]}
